@@ -22,7 +22,7 @@ LOGICS = [None, None, None, None, "undo_redo", "permanent", "ignore_changes"]
 
 class RuleSpec:
     __slots__ = ("uid", "lit", "nkeys", "tail", "logic", "ordered", "rewrite", "is_global", "neg", "children",
-                 "block", "timeout", "dialogs", "deploy_nested", "key_re", "twin")
+                 "block", "timeout", "dialogs", "deploy_nested", "key_re", "twin", "bvalue")
 
     def __init__(self, uid, lit, nkeys=0, tail=False, logic=None, ordered=False, rewrite=False, is_global=False,
                  neg=False, children=None, block=False):
@@ -35,6 +35,7 @@ class RuleSpec:
         self.deploy_nested = False
         self.key_re = None        # regex the first key word must match in full:  lit */re/
         self.twin = None          # toggle pair: 'x *' and '<rev> x *' are the two forms of one device setting
+        self.bvalue = False       # a block whose line may carry one value word after its key ('peer-group X internal')
 
     def pattern(self, rev):
         stars = ["*"] * self.nkeys
@@ -132,8 +133,13 @@ def gen_rulebook(ch, vendor, rev, exit_word, unique_heads=False, allow=None):
                     have_ordered = have_ordered or ordd
                     logic = "permanent" if ("logic" in allow and not ordd and not under_ordered and ch.draw(8, "bperm") == 0) else None
                     r = RuleSpec(uid(), head(True, used), nkeys=nk, ordered=ordd, logic=logic, block=True)
+                    if "values" in allow and "logic" in allow and not ordd and logic is None and ch.draw(4, "bvalue") == 0:
+                        # the block line carries a value beyond its key ('peer-group X internal'); such a line can only be
+                        # changed by removing the block and creating it again, which is what undo_redo says
+                        r.bvalue = True
+                        r.logic = "undo_redo"
                     r.children = gen(depth + 1, under_ordered or ordd)
-                    if "overlap" in allow and nk == 1 and not ordd and logic is None and ch.draw(3, "overlap") == 0:
+                    if "overlap" in allow and nk == 1 and not ordd and logic is None and not r.bvalue and ch.draw(3, "overlap") == 0:
                         # a more specific block rule for the same head, listed first: 'lit */k\d+/' before 'lit *';
                         # its child rules compete with the generic rule's children for the same commands
                         sp = RuleSpec(uid(), r.lit, nkeys=1, block=True)
@@ -165,6 +171,16 @@ def gen_rulebook(ch, vendor, rev, exit_word, unique_heads=False, allow=None):
         return rules
 
     rules = gen(0)
+    if unique_heads:
+        # the same command may exist inside several blocks ('shutdown' under interface and under bgp): clone a leaf child
+        blocks = [r for r in rules if r.block and not r.rewrite and r.children]
+        if len(blocks) >= 2 and ch.draw(2, "shared-child") == 0:
+            a, b = blocks[0], blocks[1]
+            leafs = [c for c in a.children if not c.block and not c.ordered and not c.neg and c.logic is None]
+            if leafs:
+                c = leafs[ch.draw(len(leafs), "shared-child-pick")]
+                if not any(x.lit == c.lit for x in b.children):
+                    b.children.append(RuleSpec(uid(), c.lit, nkeys=c.nkeys, tail=c.tail))
     globals_ = []
     if "global" in allow:
         for g in range(ch.draw(3, "nglobals")):
@@ -189,7 +205,7 @@ def match_one(r, row, rev):
         return None
     if r.tail and len(rest) < r.nkeys + 1:
         return None
-    if r.block and len(rest) != r.nkeys:
+    if r.block and len(rest) != r.nkeys and not (r.bvalue and len(rest) == r.nkeys + 1):
         return None
     if r.key_re and not re.fullmatch(r.key_re, rest[0]):
         return None
@@ -244,6 +260,8 @@ def gen_row(ch, r, rev):
     parts = ([rev] if r.neg else []) + [r.lit] + [KEYS[ch.draw(len(KEYS), "key")] for _ in range(r.nkeys)]
     if r.tail:
         parts += [VALS[ch.draw(len(VALS), "tailv")] for _ in range(1 + ch.draw(2, "taillen"))]
+    elif r.block and r.bvalue and ch.draw(3, "bval") != 0:
+        parts += [VALS[ch.draw(len(VALS), "bvalv")]]
     elif not r.block and r.logic != "permanent" and ch.draw(2, "hasval") == 1:
         # (a permanent line is identified by its key alone: common.permanent ignores a change of value)
         parts += [VALS[ch.draw(len(VALS), "val")]]
@@ -329,6 +347,11 @@ def mutate_tree(ch, rb, tree, rules=None, depth=0):
         if m is None or act == 0:
             continue                                    # drop
         r = m[0]
+        if act == 1 and r.block and r.bvalue and not r.rewrite:
+            nrow = " ".join(words(row)[:1 + r.nkeys] + ([VALS[ch.draw(len(VALS), "bvalv2")]] if ch.draw(3, "bval2") else []))
+            if nrow not in out and find_line(out, rules, rb.globals, r, m[1], rb.rev) is None:
+                out[nrow] = mutate_tree(ch, rb, sub, kids(rules, row, r, rb.rev), depth + 1)   # same key, other value
+            continue
         if act == 1 and not r.block:
             nrow = gen_row(ch, r, rb.rev)               # maybe change value/key
             mm = match_direct(rules, rb.globals, nrow, rb.rev)
@@ -597,6 +620,11 @@ class CliDevice:
                     del tree[other]
             if cur == row:
                 sub = tree[row]
+            elif cur is not None and r.block:
+                # the header of an existing block is given again with another value: the block is modified in place,
+                # what it contains stays (replacing a block takes an explicit removal, which undo_redo asks for)
+                sub = tree.pop(cur)
+                tree[row] = sub
             else:
                 if cur is not None:
                     del tree[cur]
